@@ -2334,3 +2334,20 @@ silent("c05-cse-mixin-membership-test", ["C05", "C10", "C12"], MI,
        "        result = self.map_common_subexpression_uncached(expr, *args)\n"
        "        ccd[key] = result\n"
        "        return result\n")
+
+fire("c05-optimizer-shared-ast-mutated", ["C05"], OPF,
+     "    return deepcopy(_get_def_from_ast_container(\n"
+     "            cls_ast.body, f.__name__, ast.FunctionDef))\n",
+     "    return _get_def_from_ast_container(\n"
+     "            cls_ast.body, f.__name__, ast.FunctionDef)\n",
+     "O/optimizer/cached-ast-not-mutated")
+silent_multi("c05-optimizer-deepcopy-at-use", ["C05"], OPF, [
+    ("    return deepcopy(_get_def_from_ast_container(\n"
+     "            cls_ast.body, f.__name__, ast.FunctionDef))\n",
+     "    return _get_def_from_ast_container(\n"
+     "            cls_ast.body, f.__name__, ast.FunctionDef)\n"),
+    ("                method_ast = _get_ast_for_method(method)\n",
+     "                method_ast = deepcopy(_get_ast_for_method(method))\n")])
+silent("c05-optimizer-no-memo", ["C05"], OPF,
+       "@lru_cache\ndef _get_ast_for_file(filename):",
+       "def _get_ast_for_file(filename):")
